@@ -166,7 +166,7 @@ pub fn create_mint_2022_ext(l: &mut Ledger, payer: &Pubkey, mint: &Pubkey, autho
 #[allow(clippy::too_many_arguments)]
 pub fn create_mint_2022_full(l: &mut Ledger, payer: &Pubkey, mint: &Pubkey, authority: &Pubkey, decimals: u8, fee: Option<(u16, u64)>, freeze: Option<&Pubkey>, hook: bool, meta_ptr: u8) {
     let mut exts = Vec::new();
-    if meta_ptr != 0 {
+    if matches!(meta_ptr, 1 | 2 | 4 | 5 | 6) {
         exts.push(ExtensionType::MetadataPointer);
     }
     if fee.is_some() {
@@ -177,22 +177,40 @@ pub fn create_mint_2022_full(l: &mut Ledger, payer: &Pubkey, mint: &Pubkey, auth
     }
     let len = ExtensionType::try_calculate_account_len::<spl_token_2022::state::Mint>(&exts).unwrap();
     let mut ixs = vec![ix::sys_create_account(payer, mint, rent_min(len), len as u64, &ix::tok22())];
+    // the extension list of the mint keeps the order in which the extensions were initialised (not type order):
+    // meta_ptr 0: fee, hook | 1: meta, fee, hook | 2: fee, hook, meta | 3: hook, fee | 4: hook, fee, meta | 5: meta, hook, fee | 6: hook, meta, fee
     let meta_ix = || ix::from_sol(spl_token_2022::extension::metadata_pointer::instruction::initialize(&ix::tok22(), mint, Some(*authority), Some(*mint)).unwrap());
-    if meta_ptr == 1 {
-        ixs.push(meta_ix());
-    }
-    if let Some((bps, max)) = fee {
-        ixs.push(ix::from_sol(
-            spl_token_2022::extension::transfer_fee::instruction::initialize_transfer_fee_config(&ix::tok22(), mint, Some(authority), Some(authority), bps, max).unwrap(),
-        ));
-    }
-    if hook {
-        ixs.push(ix::from_sol(
-            spl_token_2022::extension::transfer_hook::instruction::initialize(&ix::tok22(), mint, Some(*authority), Some(rt::hook_program_id())).unwrap(),
-        ));
-    }
-    if meta_ptr == 2 {
-        ixs.push(meta_ix());
+    let fee_ix = fee.map(|(bps, max)| {
+        ix::from_sol(spl_token_2022::extension::transfer_fee::instruction::initialize_transfer_fee_config(&ix::tok22(), mint, Some(authority), Some(authority), bps, max).unwrap())
+    });
+    let hook_ix = if hook {
+        Some(ix::from_sol(spl_token_2022::extension::transfer_hook::instruction::initialize(&ix::tok22(), mint, Some(*authority), Some(rt::hook_program_id())).unwrap()))
+    } else {
+        None
+    };
+    let order: &[char] = match meta_ptr {
+        1 => &['m', 'f', 'h'],
+        2 => &['f', 'h', 'm'],
+        3 => &['h', 'f'],
+        4 => &['h', 'f', 'm'],
+        5 => &['m', 'h', 'f'],
+        6 => &['h', 'm', 'f'],
+        _ => &['f', 'h'],
+    };
+    for o in order {
+        match o {
+            'm' => ixs.push(meta_ix()),
+            'f' => {
+                if let Some(i) = &fee_ix {
+                    ixs.push(i.clone());
+                }
+            }
+            _ => {
+                if let Some(i) = &hook_ix {
+                    ixs.push(i.clone());
+                }
+            }
+        }
     }
     ixs.push(ix::from_sol(spl_token_2022::instruction::initialize_mint2(&ix::tok22(), mint, authority, freeze, decimals).unwrap()));
     must(l, ixs, "create_mint_2022");
